@@ -5,6 +5,7 @@ import traceback
 from paramiko.server import InteractiveQuery
 
 from vf import keys
+from vf.g2kit import RekeySess, RekeyTrouble
 from vf.authkit import (AUTH_FAILED, AUTH_PARTIALLY_SUCCESSFUL, AUTH_SUCCESSFUL, MSG_DISCONNECT,
                         MSG_USERAUTH_FAILURE, MSG_USERAUTH_INFO_RESPONSE, MSG_USERAUTH_REQUEST, MSG_USERAUTH_SUCCESS,
                         FenceTimeout, Sess, episodes, parse_userauth_request, res_name, session_blob, sstr, started, u32)
@@ -22,7 +23,10 @@ META = dict(
          "user than the first one, or a service other than ssh-connection, or arrives after the tenth "
          "USERAUTH_FAILURE(partial=false), the machine is in state 'must end': from then on no check_auth_* callback "
          "may be evaluated, no USERAUTH_SUCCESS sent, is_authenticated() must be false and the victim must have "
-         "sent DISCONNECT / ended the transport.",
+         "sent DISCONNECT / ended the transport. Round 3: (a) 15-attempt guessing runs and username-switch runs "
+         "with 1..3 completed key re-exchanges (peer-initiated, renegotiate_keys(), packet threshold) between the "
+         "requests; (b) an explicit matrix kind of earlier attempt {none, password fail, publickey fail, key query "
+         "answered PK_OK, key query refused, keyboard-interactive query} x {second username differs, same}.",
     note="Only what the statement says is encoded: partial success is not a failure; disconnecting earlier than "
          "required is not judged; what happens after a legitimate success is not judged. 'A request for a different "
          "username ends the connection' is read as: that request is not served, i.e. no credential callback is "
@@ -78,7 +82,7 @@ class AuthSM:
 
 # ---------------------------------------------------------------------------
 
-def judge(ctx, sess, desc):
+def judge(ctx, sess, desc, context=""):
     v = sess.victim
     sm = AuthSM()
     eps = episodes(sess.rec)
@@ -99,7 +103,7 @@ def judge(ctx, sess, desc):
             continue
         if end_ep_index is not None and i > end_ep_index:
             ctx.count("episodes_read_after_must_end")
-            ctx.violation("victim kept reading after the connection had to end (%s)" % sm.must_end,
+            ctx.violation("victim kept reading after the connection had to end (%s)%s" % (sm.must_end, context),
                           "the connection was not ended: the server went on to read message type %d" % m["type"],
                           dict(session=desc, reason=sm.must_end, message_type=m["type"]))
         reason_now = None
@@ -126,13 +130,13 @@ def judge(ctx, sess, desc):
                        replies=[(o["type"], o["payload"][:24]) for o in ep["out"]],
                        pinned=sm.pinned, failures_so_far=sm.fails)
             if auth_cbs:
-                ctx.violation("credential callback evaluated after the connection had to end (%s)" % reason_now,
+                ctx.violation("credential callback evaluated after the connection had to end (%s)%s" % (reason_now, context),
                               "the server evaluated a credential although the request should have ended the connection", wit)
             if grants:
-                ctx.violation("USERAUTH_SUCCESS sent after the connection had to end (%s)" % reason_now,
+                ctx.violation("USERAUTH_SUCCESS sent after the connection had to end (%s)%s" % (reason_now, context),
                               "somebody was authenticated by a request that should have ended the connection", wit)
             if (fails or partials) and not auth_cbs:
-                ctx.violation("request answered with USERAUTH_FAILURE instead of ending the connection (%s)" % reason_now,
+                ctx.violation("request answered with USERAUTH_FAILURE instead of ending the connection (%s)%s" % (reason_now, context),
                               "the server kept talking authentication after it had to disconnect", wit)
             continue
         # a served request: account the answers
@@ -146,7 +150,7 @@ def judge(ctx, sess, desc):
                 end_ep_index = i
                 ctx.count("must_end_tenth_failed_attempt")
             if not discs and (i + 1 < len(eps) or v.is_active()):
-                ctx.violation("no disconnect after the tenth failed attempt",
+                ctx.violation("no disconnect after the tenth failed attempt" + context,
                               "ten USERAUTH_FAILURE(partial=false) were sent and the server neither sent DISCONNECT nor ended",
                               dict(session=desc, failures=sm.fails, replies=[(o["type"], o["payload"][:24]) for o in ep["out"]]))
     # end state
@@ -154,7 +158,7 @@ def judge(ctx, sess, desc):
         alive = v.is_active()
         ctx.count("end_state_checks")
         if alive:
-            ctx.violation("connection still active after it had to end (%s)" % sm.must_end,
+            ctx.violation("connection still active after it had to end (%s)%s" % (sm.must_end, context),
                           "the transport is still active after a request that must end the connection",
                           dict(session=desc, reason=sm.must_end))
         if ended_at is not None:
@@ -164,7 +168,7 @@ def judge(ctx, sess, desc):
         except AttributeError:
             authed = False
         if authed or (v.auth_handler is not None and getattr(v.auth_handler, "authenticated", False) and not sm.authed):
-            ctx.violation("authenticated state after the connection had to end (%s)" % sm.must_end,
+            ctx.violation("authenticated state after the connection had to end (%s)%s" % (sm.must_end, context),
                           "the server reports/records an authenticated user on a connection that had to be ended",
                           dict(session=desc, reason=sm.must_end))
     return sm, end_ep_index is not None
@@ -276,6 +280,233 @@ def run_session(ctx, rng, desc):
         sess.close()
 
 
+# ---------------------------------------------------------------------------
+# round 3 (a): the username pin and the ten-failure cap across key re-exchanges that complete BETWEEN requests
+
+REKEY_INITIATORS = ("peer", "server_api", "server_threshold")
+GUESS_KINDS = ["password", "password", "password", "none", "pk_badsig", "password_change", "unknown_method", "kbd"]
+ALL_FAIL = dict(none=[F] * 8, password=[F] * 8, publickey=[F] * 8, kbd=[F] * 8, kbd_resp=[F] * 8)
+
+
+def rekeys_in_history(sess):
+    """Complete re-keys the victim went through while unauthenticated and with at least one request read before:
+    list of initiators as seen on the victim's tap (whose KEXINIT came first)."""
+    out = []
+    seen_request = False
+    pending = None
+    for e in sess.rec.snapshot():
+        if e.get("kind") != "msg" or e["side"] != "v":
+            continue
+        if e["dir"] == "in" and e["type"] == MSG_USERAUTH_REQUEST:
+            seen_request = True
+        if e["type"] == 20 and seen_request and pending is None:
+            pending = "server" if e["dir"] == "out" else "peer"
+        if e["dir"] == "in" and e["type"] == 21 and pending is not None:
+            out.append(pending)
+            pending = None
+        if e["dir"] == "out" and e["type"] == MSG_USERAUTH_SUCCESS:
+            break
+    return out
+
+
+def run_rekey_run(ctx, rng, desc):
+    sess = started(lambda: RekeySess(rng, policy=build_policy(desc["table"])), lambda s: s.start(auth=False))
+    if sess is None:
+        ctx.inconclusive("re-key run: handshake failed three times")
+        return
+    try:
+        _, st = sess.service_request()
+        if st != "ok":
+            ctx.inconclusive("re-key run: victim ended on SERVICE_REQUEST")
+            return
+        rekey_at = {int(k): v for k, v in desc["rekeys"].items()}
+        dead_for = 0
+        for i, stp in enumerate(desc["sequence"]):
+            ptype, body = body_for(rng, sess, stp)
+            seq, st = sess.step(ptype, body)
+            ctx.count("requests_sent")
+            if st == "dead":
+                dead_for += 1
+                if dead_for >= 3:
+                    break
+                continue
+            if (i + 1) in rekey_at:
+                try:
+                    r = sess.rekey(rekey_at[i + 1])
+                except RekeyTrouble as e:
+                    ctx.inconclusive("re-key run: %s" % e)
+                    return
+                if r == "done":
+                    ctx.count("rekey_run_rekeys_completed_" + rekey_at[i + 1])
+                elif r == "attacker-dead":
+                    ctx.inconclusive("re-key run: the attacker tool ended during a re-key (%r)" % (sess.att.att.saved_exception,))
+                    return
+                else:
+                    ctx.count("rekey_run_victim_ended_during_rekey")
+        sm, reached = judge(ctx, sess, desc, context=" [after a key re-exchange between requests]")
+        hist = rekeys_in_history(sess)
+        for who in hist:
+            ctx.count("rekey_between_requests_seen_on_victim_tap_%s_first" % who)
+        if hist and sm.must_end:
+            ctx.count("rekey_run_must_end_%s_after_rekey" % sm.must_end.replace(" ", "_"))
+        ctx.case(("c16-rekey", repr(desc)), sample=desc if desc.get("sample") else None, nontrivial=reached and bool(hist))
+    except FenceTimeout as e:
+        ctx.inconclusive("re-key run: fence timeout: %s" % e)
+    finally:
+        sess.close()
+
+
+def run_rekey_stratum(ctx, rng, deadline):
+    plan = []
+    reps = ctx.pick(1, 4)
+    for rep in range(reps):
+        for ini in REKEY_INITIATORS:
+            for n_rekeys in (1, 2, 3):
+                for kind in ("guess", "switch"):
+                    plan.append((ini, n_rekeys, kind))
+    shown = 0
+    for i, (ini, n_rekeys, kind) in enumerate(plan):
+        if not ctx.mine(i):
+            continue
+        if time.time() > deadline:
+            ctx.count("sessions_not_run_time_cap")
+            continue
+        users = rng.sample(["u", "alice", "root", "U"], 2)
+        if kind == "guess":
+            seq = [(rng.choice(GUESS_KINDS), users[0], "ssh-connection") for _ in range(15)]
+            points = sorted(rng.sample(range(1, 10), n_rekeys))  # all before the tenth failure
+        else:
+            k = rng.randint(max(1, n_rekeys), 7)  # attempts as the first user before the switch
+            seq = [(rng.choice(GUESS_KINDS + ["pk_query", "pk_valid"]), users[0], "ssh-connection") for _ in range(k)]
+            seq.append((rng.choice(["password", "none", "pk_query", "pk_valid", "kbd"]), users[1], "ssh-connection"))
+            seq += [("password", users[0], "ssh-connection")] * 2
+            points = sorted(rng.sample(range(1, k + 1), n_rekeys))
+            if rng.random() < 0.5 and k not in points:
+                points[-1] = k  # a re-key directly before the request under the other name
+        inis = [ini] + [rng.choice(REKEY_INITIATORS) for _ in range(n_rekeys - 1)]
+        rng.shuffle(inis)
+        table = dict(ALL_FAIL)
+        if kind == "switch":
+            # were the pin lost, the request under the second name would be served and granted
+            table = dict(none=[F] * 7 + [S], password=[F] * 7 + [S], publickey=[F] * 7 + [S], kbd=[F] * 7 + [S], kbd_resp=[F] * 8)
+        desc = dict(stratum="re-key between requests", kind=kind, users=users, table=table, sequence=[list(x) for x in seq],
+                    rekeys={str(p): w for p, w in zip(points, inis)})
+        if shown < 1:
+            desc["sample"] = True
+            shown += 1
+        ctx.count("sessions")
+        ctx.count("rekey_runs_" + kind)
+        try:
+            run_rekey_run(ctx, rng, desc)
+        except Exception:
+            ctx.inconclusive("harness error: " + traceback.format_exc()[-900:])
+    for ini in REKEY_INITIATORS:
+        ctx.require("rekey_run_rekeys_completed_" + ini, 6 * reps)
+    ctx.require("rekey_between_requests_seen_on_victim_tap_peer_first", 6 * reps)
+    ctx.require("rekey_between_requests_seen_on_victim_tap_server_first", 12 * reps)
+    ctx.require("rekey_run_must_end_tenth_failed_attempt_after_rekey", 8 * reps)
+    ctx.require("rekey_run_must_end_different_username_after_rekey", 8 * reps)
+
+
+# ---------------------------------------------------------------------------
+# round 3 (b): kind of earlier attempt x second username differs — an explicit matrix
+
+EARLIER = ["none", "password_fail", "publickey_fail", "pk_query_ok", "pk_query_refused", "interactive_query"]
+SECOND = ["password", "pk_query", "none"]
+# earlier kind -> (request kind, outcome table entry that makes it happen, reply type expected on the victim's tap)
+EARLIER_HOW = {
+    "password_fail": ("password", ("password", F), 51),
+    "publickey_fail": ("pk_valid", ("publickey", F), 51),
+    "pk_query_ok": ("pk_query", ("publickey", S), 60),
+    "pk_query_refused": ("pk_query", ("publickey", F), 51),
+    "interactive_query": ("kbd", ("kbd", "Q"), 60),
+}
+
+
+def run_pin_cell(ctx, rng, desc):
+    earlier, differs, second = desc["earlier"], desc["differs"], desc["second"]
+    sess = started(lambda: Sess(rng, policy=build_policy(desc["table"])), lambda s: s.start(auth=False))
+    if sess is None:
+        ctx.inconclusive("pin matrix: handshake failed three times")
+        return
+    try:
+        _, st = sess.service_request()
+        if st != "ok":
+            ctx.inconclusive("pin matrix: victim ended on SERVICE_REQUEST")
+            return
+        for stp in desc["sequence"]:
+            ptype, body = body_for(rng, sess, stp)
+            sess.step(ptype, body)
+            ctx.count("requests_sent")
+        eps = [ep for ep in episodes(sess.rec) if ep["msg"]["type"] == MSG_USERAUTH_REQUEST]
+        cell = "pin_cell_%s_%s" % (earlier, "differs" if differs else "same")
+        ok = True
+        if earlier != "none":
+            want = EARLIER_HOW[earlier][2]
+            got = [o["type"] for o in eps[0]["out"]] if eps else []
+            if want not in got or (want == 51 and eps[0]["out"][0]["payload"][-1:] != b"\x00"):
+                ctx.inconclusive("pin matrix: earlier attempt %s was not answered as planned (victim sent %r)" % (earlier, got))
+                ok = False
+        n_expected = 1 if earlier == "none" else 2
+        if ok and len(eps) >= n_expected:
+            ctx.count(cell)
+            last = eps[n_expected - 1]
+            served = any(c["name"].startswith("check_auth") for c in last["cbs"])
+            if not (differs and earlier != "none"):
+                # control: a request under the pinned (or the first) name is served — the refusal in the other
+                # column is due to the name and nothing else
+                ctx.count("pin_control_request_served" if served else "pin_control_request_not_served")
+            elif not served:
+                ctx.count("pin_second_username_refused")
+        sm, reached = judge(ctx, sess, desc, context=" [earlier attempt: %s]" % earlier.replace("_", " "))
+        ctx.case(("c16-pin", repr(desc)), sample=desc if desc.get("sample") else None,
+                 nontrivial=reached or not differs or earlier == "none")
+    except FenceTimeout as e:
+        ctx.inconclusive("pin matrix: fence timeout: %s" % e)
+    finally:
+        sess.close()
+
+
+def run_pin_matrix(ctx, rng, deadline):
+    plan = []
+    reps = ctx.pick(1, 4)
+    for rep in range(reps):
+        for earlier in EARLIER:
+            for differs in (True, False):
+                for second in SECOND:
+                    plan.append((earlier, differs, second))
+    shown = 0
+    for i, (earlier, differs, second) in enumerate(plan):
+        if not ctx.mine(i):
+            continue
+        if time.time() > deadline:
+            ctx.count("sessions_not_run_time_cap")
+            continue
+        users = rng.sample(["u", "alice", "root", "U", "u "], 2)
+        table = dict(none=[S] * 8, password=[S] * 8, publickey=[S] * 8, kbd=["Q"] * 8, kbd_resp=[F] * 8)
+        seq = []
+        if earlier != "none":
+            kind, (key, val), _ = EARLIER_HOW[earlier]
+            table[key] = [val] + [S] * 7
+            seq.append((kind, users[0], "ssh-connection"))
+        seq.append((second, users[1] if differs else users[0], "ssh-connection"))
+        desc = dict(stratum="pin matrix", earlier=earlier, differs=differs, second=second, users=users, table=table,
+                    sequence=[list(x) for x in seq])
+        if shown < 1 and earlier == "pk_query_ok" and differs:
+            desc["sample"] = True
+            shown += 1
+        ctx.count("sessions")
+        try:
+            run_pin_cell(ctx, rng, desc)
+        except Exception:
+            ctx.inconclusive("harness error: " + traceback.format_exc()[-900:])
+    for earlier in EARLIER:
+        for col in ("differs", "same"):
+            ctx.require("pin_cell_%s_%s" % (earlier, col), 3 * reps)
+    ctx.require("pin_control_request_served", 18 * reps)
+    ctx.require("pin_second_username_refused", 12 * reps)
+
+
 def run(ctx):
     rng = ctx.rng
     n = ctx.pick(256, 4000)
@@ -299,6 +530,8 @@ def run(ctx):
             run_session(ctx, rng, desc)
         except Exception:
             ctx.inconclusive("harness error: " + traceback.format_exc()[-900:])
+    run_rekey_stratum(ctx, rng, ctx.deadline(190, 1350))
+    run_pin_matrix(ctx, rng, ctx.deadline(200, 1400))
     ctx.require("requests_read_by_victim", 1500 if ctx.quick else 15000)
     ctx.require("callbacks_logged", 1000 if ctx.quick else 10000)
     ctx.require("failed_attempts_observed", 800 if ctx.quick else 8000)
